@@ -393,7 +393,7 @@ def parse_labels(text, marker):
 def main(run):
     info = proof_stage(run, "C16", extra_targets=["corr/C16_corr.vo"])
     harness_build()
-    n = 260 if run.tier == "quick" else 4000
+    n = 400 if run.tier == "quick" else 4000
     cases = gen_cases(run, n)
     r = run.rng
     reqs, rmap = [], []
